@@ -125,4 +125,41 @@ example : ∃ (i : Inp ℚ) (a : Alloc ℚ), 2 ≤ i.nmonths ∧ PhysFeasible i 
   obtain ⟨h1, h2⟩ := sound_humans i x hN hx
   exact ⟨i, allocOf x, hN, h1, lt_of_lt_of_le hpos h2⟩
 
+/-! ## completeness, feed-maximising round
+
+`PhysFeasibleFeed i a`: the supply clauses of `PhysFeasible` without the obligation to use stocks
+up; feed and biofuel totals within the ceilings `maxFeed`/`maxBiofuel` and never above the month
+before; people's consumption of each of the six LP foods pinned inside the tolerance band around
+what the human-maximising round gave them (`Pinned`: ±0.01 % below 10 million people, ±0.001 %
+otherwise — exactly `pinnedRows`); feed/biofuel share caps of the resilient foods relative to
+`i.feed`/`i.biofuel` as the code has them; no percent-fed variable, no human intake caps.
+`feedValue i a = 2/3·Σ feed + Σ biofuel / 3` is what the round maximises. -/
+
+theorem sound_animals (i : Inp K) (x : Var → K) (h : Feasible (buildLP i .toAnimals) x) :
+    PhysFeasibleFeed i (allocOf x) ∧ x .objective ≤ feedValue i (allocOf x) :=
+  Proofs.Completeness.sound_animals i x h
+
+theorem complete_animals (i : Inp K) (a : Alloc K)
+    (hw : i.wStored < 100 ∧ i.wCrop < 100 ∧ i.wMeat < 100) (ha : PhysFeasibleFeed i a) :
+    ∃ x, Feasible (buildLP i .toAnimals) x ∧ allocOf x = a ∧ x .objective = feedValue i a :=
+  Proofs.Completeness.complete_animals i a hw ha
+
+/-- the objective values the feed-maximising LP can achieve are exactly the numbers between 0 and
+    the weighted total of a physically feasible allocation -/
+theorem feed_optimum_is_true_optimum (i : Inp K)
+    (hw : i.wStored < 100 ∧ i.wCrop < 100 ∧ i.wMeat < 100) (z : K) :
+    (∃ x, Feasible (buildLP i .toAnimals) x ∧ x .objective = z) ↔
+    (∃ a, PhysFeasibleFeed i a ∧ 0 ≤ z ∧ z ≤ feedValue i a) :=
+  Proofs.Completeness.feed_optimum_is_true_optimum i hw z
+
+theorem feed_bound_iff_true_bound (i : Inp K)
+    (hw : i.wStored < 100 ∧ i.wCrop < 100 ∧ i.wMeat < 100) (b : K) :
+    (∀ x, Feasible (buildLP i .toAnimals) x → x .objective ≤ b) ↔
+    (∀ a, PhysFeasibleFeed i a → feedValue i a ≤ b) :=
+  Proofs.Completeness.feed_bound_iff_true_bound i hw b
+
+/-- non-vacuity: a physically feasible feed allocation with a positive weighted total -/
+example : ∃ (i : Inp ℚ) (a : Alloc ℚ), PhysFeasibleFeed i a ∧ 0 < feedValue i a :=
+  Proofs.Completeness.feed_nonvacuous
+
 end Allfed.C02
